@@ -7,6 +7,7 @@ structure LocksSt where
   n : Nat := 1
   p : Nat := 0
   st : St := init 1
+  specs : List (Nat × UpSpec) := []     -- what happens to each frame on its way up (by frame id)
 
 def optNat (t : String) : Option Nat := t.toNat?
 
@@ -25,14 +26,22 @@ def locksStep (s : LocksSt) : List String → LocksSt × String
   | ["send", f] =>
     let r := sendAt Yow.Gen.lockCfg (optNat f) (s.n - 1) s.st
     ({ s with st := r.1 }, showLocks r.2 r.1)
-  | ["recv", frame, fa, ra, rf] =>
+  | [op, frame, fa, ra, rf] =>
     match frame.toNat? with
     | some fr =>
       let u : UpSpec := { failAt := optNat fa, replyAt := optNat ra, replyFail := optNat rf }
-      -- frames already queued keep a fault-free spec; the new frame gets `u`
-      let spec : Nat → UpSpec := fun f => if f = fr then u else { failAt := none, replyAt := none, replyFail := none }
-      let r := noiseReceive Yow.Gen.lockCfg spec s.n s.p fr s.st
-      ({ s with st := r.1 }, showLocks r.2 r.1)
+      let specs := (fr, u) :: s.specs
+      let spec : Nat → UpSpec := fun f =>
+        match specs.find? (fun e => e.1 == f) with
+        | some e => e.2
+        | none => { failAt := none, replyAt := none, replyFail := none }
+      if op == "recv" then
+        let r := noiseReceive Yow.Gen.lockCfg spec s.n s.p fr s.st
+        ({ s with st := r.1, specs := specs }, showLocks r.2 r.1)
+      else if op == "enq" then
+        let r := step Yow.Gen.lockCfg spec s.n s.p s.st (.enq fr)
+        ({ s with st := r.1, specs := specs }, showLocks r.2 r.1)
+      else (s, "bad-op")
     | none => (s, "bad-op")
   | ["unlock"] =>      -- harness-side recovery after a reported leak (keeps the run going)
     ({ s with st := { s.st with held := List.replicate s.n false, flush := false } }, "ok")
